@@ -110,8 +110,12 @@ def gen_case(rng, kinds=KINDS, ranks=(2, 3, 3, 4, 4, 5), finite=(2, 12)):
             # a genuinely non-symmetric Cartan matrix with the right products C_ij C_ji = 4cos^2(pi/m) at the finite labels:
             # a diagonal rescaling D (2B) D^-1 of the cosine Cartan matrix, or the classical integer Cartan matrix
             inp["dvec"] = [Q.qs(F(rng.randint(1, 6), rng.randint(1, 4))) for _ in range(n)]
+            if rng.random() < 0.4:
+                # G12 magnitudes: a badly scaled (still valid) Cartan matrix D C0 D^-1, D spanning up to 10^+-9
+                inp["dvec"] = [Q.qs(F(10) ** rng.randint(-9, 9) * rng.randint(1, 9)) for _ in range(n)]
+                inp["bigscale"] = True
             inp["rename"] = rng.choice([None, None, "alpha", "alphanum"])
-            inp["cdiag"] = rng.random() < 0.5          # cartan_representation(C, diagonalize=True)
+            inp["cdiag"] = rng.random() < 0.5 and not inp.get("bigscale")     # cartan_representation(C, diagonalize=True)
             if rng.random() < 0.3:
                 name, Mi, Ci = rng.choice(INTEGER_CARTAN)
                 inp["spec"] = X.rand_spec(rng, Mi) if rng.random() < 0.5 else {"route": "matrix", "M": Mi, "style": "alpha"}
@@ -374,6 +378,10 @@ def judge_words(inp, obs, lr):
             return {"expected": "model answer", "observed": r, "tags": {**tags, "driver_err": r["err"][:60]}}
         m = Q.decf(r["ok"])
         v = np.array(v)
+        if inp.get("bigscale") and inp["kind"] == "cartan" and "intC" not in inp and v.shape == m.shape:
+            # judged relative to the conditioning: entry (i,j) of a word in the generators D s D^-1 carries the factor d_i/d_j
+            d = np.array([float(F(x)) for x in inp["dvec"]])
+            v, m = v * (d[None, :] / d[:, None]), m * (d[None, :] / d[:, None])
         if v.shape != m.shape or float(np.max(np.abs(v - m))) > 1e-9 * (1 + float(np.max(np.abs(m)))):
             return {"expected": {"word": w, "value": m.tolist()}, "observed": v.tolist(), "tags": {**tags, "len": len(w)}}
     return None
@@ -387,6 +395,13 @@ def gen_rel(rng, n):
 
 def run_rel(inp):
     G, names, rep, gens, extra = build_rep(inp)
+    if inp.get("bigscale") and inp["kind"] == "cartan" and "intC" not in inp:
+        # judged relative to the conditioning: C = D C0 D^-1 gives s_i = D s_i0 D^-1; undo the scaling in the harness
+        d = np.array([float(F(x)) for x in inp["dvec"]])
+        gens = [g * (d[None, :] / d[:, None]) for g in gens]
+        rescale = d[None, :] / d[:, None]
+    else:
+        rescale = 1.0
     # the labels come from the *input* (diagram / matrix as given), the matrices by generator name
     M = np.asarray(X.expected_matrix_and_names(inp["spec"])[0])
     n = len(names)
@@ -409,7 +424,7 @@ def run_rel(inp):
                     braid = max(braid, r)
     # the inverse generator the Representation stores next to each generator (upper-case name) must be its inverse
     xn = rep_names(inp)[1]
-    invres = max(float(np.max(np.abs(np.asarray(rep.generators[g.upper()], dtype=float) @ gens[i] - np.eye(n))))
+    invres = max(float(np.max(np.abs((np.asarray(rep.generators[g.upper()], dtype=float) * rescale) @ gens[i] - np.eye(n))))
                  for i, g in enumerate(xn))
     dets = [float(np.linalg.det(g)) for g in gens]
     # each generator fixes a hyperplane pointwise: g - 1 has rank one
@@ -837,7 +852,7 @@ def gen_session(rng, n):
                               "dtype": rng.choice(["float", "float", "int"]), "scribble": rng.random() < 0.3})
             elif r < 0.85:
                 par = [[i, j, Q.qs(-F(rng.randint(5, 12), rng.randint(1, 2)))] for i in range(rank) for j in range(rank)
-                       if i != j and M[i][j] < 0 and rng.random() < 0.7]
+                       if i != j and M[i][j] <= 0 and rng.random() < 0.7]
                 steps.append({"g": g, "a": rng.choice(["vinberg", "cartan_matrix"]), "params": par,
                               "fmt": rng.choice(["dict", "array"]), "scribble": rng.random() < 0.5})
             else:
@@ -963,6 +978,8 @@ def run_session(inp):
             ref = _outcome(lambda: gens_of(fresh(o).cartan_representation(before.copy(), **ckw), calpha))
             compare(si, o, "cartan" + ("+diagonalize" if st["diag"] else ""), got, ref, clauses="other")
             out[-1]["input_changed"] = changed
+            # a (numerically) degenerate form that diagonalize_form does not flag is conjugated by an ill-conditioned W
+            out[-1]["loose"] = bool(st["diag"] and not o["nondeg"])
         elif st["a"] in ("vinberg", "cartan_matrix"):
             if st["fmt"] == "dict":
                 par = {(i, j): float(F(v)) for i, j, v in st["params"]}
@@ -1016,10 +1033,117 @@ def judge_session(inp, obs, lr):
         if r.get("fresh_diff", 0.0) > 1e-9:
             return {"expected": "same answer as a fresh group built from the same labels (history, aliasing and other objects must "
                                 "not matter)", "observed": r, "tags": {**tags, "defence": "G1-fresh"}}
-        tol = (1e-3 if r.get("single") else 1e-8) * r.get("scale", 1.0) ** 2
+        tol = (1e-3 if r.get("single") else 1e-6 if r.get("loose") else 1e-8) * r.get("scale", 1.0) ** 2
         if r.get("invol", 0.0) > tol or r.get("braid", 0.0) > tol or r.get("form", 0.0) > tol:
             return {"expected": "relations / preserved form of the labels the group was constructed from", "observed": r,
                     "tags": {**tags, "defence": "clauses"}}
+    return None
+
+
+# ---- boundaries of the refusal (G15) and documented keywords (G13) --------------------------------------------------
+def gen_boundary(rng, n):
+    for k in range(n):
+        if k % 10 == 9:
+            yield {"probe": "rename_keyword", "style": rng.choice(["alpha", "alphanum"])}
+            continue
+        rank = rng.choice([2, 2, 3, 3])
+        inf = rng.choice([0, -1, -2])
+        if rank == 2:
+            M = [[1, inf], [inf, 1]]
+            pairs = [(0, 1)]
+        else:
+            m = rng.choice([2, 2, 3, 4, 0])
+            M = X.sym_matrix(3, [inf, 2 if m else inf, m if m else inf])
+            pairs = [(i, j) for i in range(3) for j in range(i + 1, 3) if M[i][j] <= 0]
+        eps = rng.choice([None, "1e-3", "1e-5", "1e-7", "1e-9", "1e-10", "1e-11", "1e-12"])
+        yield {"M": M, "pairs": pairs, "eps": eps, "via": rng.choice(["vinberg", "cartan"]),
+               "style": rng.choice(["alpha", "alphanum"])}
+
+
+def run_boundary(inp):
+    from geometry_tools import coxeter
+    if inp.get("probe") == "rename_keyword":
+        G = coxeter.CoxeterGroup(matrix=np.array([[1, 3, 2], [3, 1, 4], [2, 4, 1]]),
+                                 generator_style="alphanum" if inp["style"] == "alpha" else "alpha")
+        want = ["a", "b", "c"] if inp["style"] == "alpha" else ["s0", "s1", "s2"]
+        out = {}
+        for nm, fn in (("cartan_representation", lambda: G.cartan_representation(2 * G.bilinear_form(), rename_generators=True, generator_style=inp["style"])),
+                       ("geometric_representation", lambda: G.geometric_representation(rename_generators=True)),
+                       ("canonical_representation", lambda: G.canonical_representation(rename_generators=True))):
+            keys = sorted(k for k in fn().generators if k == k.lower())
+            out[nm] = keys
+        return {"probe": out, "want_cartan": want}
+    M = inp["M"]
+    n = len(M)
+    G = coxeter.CoxeterGroup(matrix=np.array(M), generator_style=inp["style"])
+    names = list(G.ordered_gens)
+    e = 0.0 if inp["eps"] is None else float(inp["eps"])
+    par = {p: -2.0 - e for p in inp["pairs"]}
+    if inp["via"] == "vinberg":
+        fn = lambda: G.tits_vinberg_rep(dict(par), diagonalize=True)
+    else:
+        C = np.asarray(G.cartan_matrix(dict(par)), dtype=float).copy()
+        fn = lambda: G.cartan_representation(C, diagonalize=True)
+    # exact reference: is the symmetric form C/2 degenerate?  (Fractions; eps is a decimal string)
+    Cx = [[F(2) if i == j else (F(0)) for j in range(n)] for i in range(n)]
+    ex = F(0) if inp["eps"] is None else F(inp["eps"])
+    for i in range(n):
+        for j in range(n):
+            if i != j:
+                m = M[i][j]
+                Cx[i][j] = (-2 - ex) if (min(i, j), max(i, j)) in [tuple(p) for p in inp["pairs"]] else \
+                    {2: F(0), 3: F(-1), 4: None}.get(m, None)
+    exact_det = None if any(x is None for r in Cx for x in r) else Q.det(Cx)
+    try:
+        rep = fn()
+    except Exception as ex_:
+        return {"raised": type(ex_).__name__, "exact_det": None if exact_det is None else float(exact_det)}
+    gens = [np.asarray(rep.generators[g], dtype=float) for g in names]
+    I = np.eye(n)
+    inv = max(float(np.max(np.abs(g @ g - I))) for g in gens)
+    braid = 0.0
+    for i in range(n):
+        for j in range(i + 1, n):
+            if M[i][j] >= 2:
+                braid = max(braid, float(np.max(np.abs(np.linalg.matrix_power(gens[i] @ gens[j], M[i][j]) - I))))
+    # the diagonalised representation preserves some diag(+-1) with exactly one -1 ... found from the generators themselves
+    scale = max(float(np.max(np.abs(g))) for g in gens)
+    word = X.rep_word(rep, names, [0, n - 1, 0])
+    wv = np.asarray(word, dtype=float)
+    werr = float(np.max(np.abs(wv - gens[0] @ gens[n - 1] @ gens[0])))
+    return {"raised": None, "invol": inv, "braid": braid, "scale": scale, "werr": werr,
+            "exact_det": None if exact_det is None else float(exact_det)}
+
+
+def judge_boundary(inp, obs, lr):
+    if "exc" in obs:
+        return {"expected": "no exception", "observed": obs, "tags": {"exc": obs["exc"], "boundary": True}}
+    if "probe" in obs:
+        p = obs["probe"]
+        if p["cartan_representation"] != obs["want_cartan"]:
+            return {"expected": {"cartan_representation names": obs["want_cartan"]}, "observed": p, "tags": {"what": "rename-cartan"}}
+        if p["geometric_representation"] != ["a", "b", "c"] or p["canonical_representation"] != ["a", "b", "c"]:
+            return {"expected": "rename_generators=True renames the generators (keyword documented via cartan_representation)",
+                    "observed": p, "tags": {"keyword": "rename_generators", "what": "ignored"}}
+        return None
+    tags = {"eps": inp["eps"], "via": inp["via"], "boundary": True}
+    if inp["eps"] is None:
+        # exactly degenerate: must refuse (or, at least, not hand out matrices violating the clauses)
+        if obs["raised"] == "GeometryError":
+            return None
+        if obs["raised"]:
+            return {"expected": "GeometryError for a degenerate form", "observed": obs, "tags": {**tags, "what": "wrong-exception"}}
+        if obs["invol"] > 1e-6 * obs["scale"] ** 2:
+            return {"expected": "GeometryError for a degenerate form (or involutions)", "observed": obs, "tags": {**tags, "what": "degenerate-not-refused"}}
+        return None
+    # near-degenerate but VALID: must not raise, and the clauses hold relative to the conditioning (~ eps^-1/2)
+    if obs["raised"]:
+        return {"expected": "a representation: the form is non-degenerate (exact determinant %r)" % obs["exact_det"], "observed": obs,
+                "tags": {**tags, "what": "valid-input-refused"}}
+    tol = 1e-7 * obs["scale"] ** 2 / math.sqrt(float(inp["eps"]))
+    if obs["invol"] > tol or obs["braid"] > tol or obs["werr"] > tol:
+        return {"expected": "involutions / relations / rep[word] on a near-degenerate valid form (tolerance %g)" % tol, "observed": obs,
+                "tags": {**tags, "what": "near-degenerate-clauses"}}
     return None
 
 
@@ -1053,6 +1177,11 @@ CLAUSES = [
                 "reused float/int arrays, tits_vinberg_rep / cartan_matrix with parameters at negative labels, bilinear_form), "
                 "constructors fed buffers, views, Fortran arrays, tuples, float/int32 arrays, one-shot diagram iterables; inputs "
                 "snapshotted, returned arrays overwritten; every answer compared with a FRESH group and with the clauses"),
+    Clause("boundary_oracle", "oracle", gen_boundary, run_boundary, judge_boundary, site="coxeter.CoxeterGroup.cartan_representation(diagonalize=True)",
+           budget={"quick": 100, "thorough": 1500},
+           what="G15: valid near-degenerate forms (Tits-Vinberg parameters -2-eps, eps = 1e-3..1e-12, rank 2-3, infinity written 0/-1/-2) "
+                "must NOT be refused and satisfy the clauses relative to their conditioning; exactly degenerate ones (eps = 0) must raise "
+                "GeometryError; G13: the documented keyword rename_generators on every representation method"),
     Clause("form_dual_oracle", "oracle", gen_formdual, run_formdual, judge_formdual,
            site="coxeter.CoxeterGroup.geometric_representation/canonical_representation", budget={"quick": 100, "thorough": 3000},
            what="g^T B g = B on generators and words; canonical[w] = inverse transpose of geometric[w]"),
